@@ -118,11 +118,7 @@ def build_program(items: List[Tuple[int, dict]]) -> Tuple[str, Dict[int, int]]:
                     used_labels.append(names[k])
         e = render_expr(it, idx, names)
         probes = [f";(({e}) >> {64 * n}) & {hex(mask)}" for n in range(NLIMBS)]
-        if '"' in e:
-            # the lexer's string token is greedy up to the LAST double quote on a line: one string literal per line
-            probes.append(f";2*((({e}) >> {64 * NLIMBS}) == 0)")
-        else:
-            probes.append(f";(({e}) < 0) + 2*((({e}) >> {64 * NLIMBS}) == 0) + 4*((({e}) >> {64 * NLIMBS}) == (0-1))")
+        probes.append(f";(({e}) < 0) + 2*((({e}) >> {64 * NLIMBS}) == 0) + 4*((({e}) >> {64 * NLIMBS}) == (0-1))")
         probes.append(f";#({e})")
         first_op[idx] = opidx
         opidx += len(probes)
@@ -157,6 +153,9 @@ def lit_items(lits: List[dict]) -> List[Tuple[int, dict]]:
         text = "".join(spell(c, i + k, esc) for k, c in enumerate(codes))
         quoted = f"'{text}'" if len(codes) == 1 and i % 2 == 0 else f'"{text}"'
         out.append((1000000 + i, {"toks": [quoted], "tags": ["lit", "lit", "lit"], "uses": [], "vals": [], "ok": True, "v": lc["v"]}))
+        # two string literals in one expression: "s1" + "s2" (value from TLC)
+        text2 = "".join(spell(c, i + k + 1, esc) for k, c in enumerate(lc["codes2"]))
+        out.append((2000000 + i, {"toks": [f'"{text}"', "+", f'"{text2}"'], "tags": ["lit", "lit", "lit"], "uses": [], "vals": [], "ok": True, "v": lc["pair"]}))
     return out
 
 
